@@ -100,7 +100,7 @@ pub fn shard_run(prop: &str, tier: &str, seed: u64, replay: Option<&serde_json::
     let mut cov = Cov::default();
     let scns = scenarios(tier, seed);
     let cap = if thorough { 2000 } else { 60 };
-    let n_probe = if thorough { 120 } else { 15 };
+    let n_probe = if thorough { 100 } else { 6 };
     let (replay_scn, replay_choices): (Option<String>, Option<Vec<usize>>) = match replay {
         Some(r) => (
             r["replay"]["scenario"]["name"].as_str().map(|s| s.to_string()),
@@ -157,14 +157,23 @@ pub fn shard_run(prop: &str, tier: &str, seed: u64, replay: Option<&serde_json::
             let mut attempt = 0;
             let (obs, taken, divergent) = loop {
                 attempt += 1;
-                let r = if random_phase && (execs - dfs_done_at.unwrap()) % 3 != 0 {
-                    // two of three sampled schedules are one-preemption schedules
-                    let mut r2 = rnd.fork(execs as u64);
-                    let nw = scn.programs.len();
+                let nw = scn.programs.len();
+                let nfact: usize = (1..=nw).product();
+                let family = nfact * 9;
+                let r = if random_phase && (execs - dfs_done_at.unwrap() - 1) < family {
+                    // the one-preemption family is enumerated: every priority order of the workers x
+                    // the first worker set aside after 0..8 of its steps
+                    let m = execs - dfs_done_at.unwrap() - 1;
                     let mut prio: Vec<usize> = (0..nw).collect();
-                    r2.shuffle(&mut prio);
-                    // (the number of steps before the first worker is set aside cycles through 0..8)
-                    let mut ch = PreemptChooser { prio, at: (execs + *si) % 9, victim_steps: 0, taken: vec![] };
+                    let mut k = m % nfact;
+                    let mut pool: Vec<usize> = (0..nw).collect();
+                    for (slot, f) in (1..=nw).rev().enumerate() {
+                        let block: usize = (1..f).product();
+                        let idx = k / block.max(1);
+                        k %= block.max(1);
+                        prio[slot] = pool.remove(idx.min(pool.len() - 1));
+                    }
+                    let mut ch = PreemptChooser { prio, at: m / nfact, victim_steps: 0, taken: vec![] };
                     (execute(scn, &mut ch, true), ch.taken, false)
                 } else if random_phase {
                     let mut ch = RandChooser { rng: rnd.fork(execs as u64), taken: vec![] };
@@ -269,7 +278,8 @@ pub fn shard_run(prop: &str, tier: &str, seed: u64, replay: Option<&serde_json::
                 break;
             }
             if random_phase {
-                if execs >= dfs_done_at.unwrap() + n_probe {
+                let nfact: usize = (1..=scn.programs.len()).product();
+                if execs >= dfs_done_at.unwrap() + nfact * 9 + n_probe {
                     break;
                 }
                 continue;
